@@ -51,6 +51,8 @@ def oracle_iff(case):
     occ = [(i, e) for i in range(n) for e in range(n + 1) if rx.fullmatch(d[i:i + e])]
     if len(occ) > 1:
         return {"skip": "not unique"}
+    # a parent class (a generic Entry, a parent signature class) is asked before the part class
+    implutil.prime_bases(part, seq)
     p = implutil.typed_info(part(implutil.mk_circular(seq, "r")))
     g = implutil.typed_info(gen(implutil.mk_circular(seq, "r")))
     up, down = case["sig"]
@@ -124,7 +126,9 @@ def run(ctx):
             rng.shuffle(roles)
             # a module part and a vector part with the same enzyme and signature, asked in one interpreter
             pairs.append([{"cls": {"kind": "part", "role": r, "enzyme": e["name"], "sig": sig}, "enz": e} for r in roles])
-    ptexts = common.run_impl(ctx, "C05", "impl_structure_pair", pairs)
+    rng.shuffle(pairs)
+    # all enzymes in ONE interpreter, in random order: neoschizomers (same site, another cut) follow each other
+    ptexts = common.run_impl(ctx, "C05", "impl_structure_pair", pairs, shards=1)
     scases = [c for pr in pairs for c in pr]
     texts = [t for pt in ptexts for t in pt]
     terms = []
